@@ -1511,13 +1511,13 @@ MANIFEST = {
     "design_ref": "DESIGN.md 4/C11",
 }
 FINDINGS = [
-    {"status": "fixed", "key": "non-conservative:def-side-conditions", "commit": "8341fb5",
+    {"status": "fixed", "key": "non-conservative:def-side-conditions", "commit": "6484ad7",
      "what": "Definition.parse accepted `cbad <--> ~cbad`, `c2 <--> (!x::'a. !y::'a. x = y)`, `d x = ?y + x`, `c (f x) <--> x`: the constant in its own "
              "definition, a type variable of the rhs missing from the constant's type, schematic variables, non-variable arguments"},
-    {"status": "fixed", "key": "redeclared-instance:zero", "commit": "207c6d8",
+    {"status": "fixed", "key": "redeclared-instance:zero", "commit": "9e93be4",
      "what": "a second `def zero :: int` ((0::int) = of_nat 1) was accepted after theory int: add_term_sig did not record the declared instances of an "
              "overloaded constant"},
-    {"status": "fixed", "key": "generated:type.ind:ill-typed-extension", "commit": "e46a852",
+    {"status": "fixed", "key": "generated:type.ind:ill-typed-extension", "commit": "858e35d",
      "what": "Datatype.parse accepted constructors whose type does not end in the datatype, or with fewer/more/repeated argument names than arguments: "
              "get_extension produced ill-typed theorems, raised, or the editor form failed with IndexError; "
              "an argument named P clashed with the induction predicate (TermException in get_extension)"},
